@@ -113,11 +113,14 @@ class LiftedSource:
         self.ctx.inputs[name] = v
         return v
 
+    def fresh_name(self, base):
+        return self.ctx.fresh_name(base)
+
     def fresh_real(self, base):
-        return self.real(self.ctx.fresh_name(base))
+        return self.real(self.fresh_name(base))
 
     def fresh_int(self, base):
-        return self.int(self.ctx.fresh_name(base))
+        return self.int(self.fresh_name(base))
 
     def func(self, name, dim, out_len=1):
         f = UFunc(self.ctx, name, dim, out_len)
@@ -174,6 +177,9 @@ class PinnedSource(LiftedSource):
         self.counter[base] = n + 1
         return '%s!%d' % (base, n)
 
+    def fresh_name(self, base):
+        return self._fresh(base)
+
     def fresh_real(self, base):
         return self.real(self._fresh(base))
 
@@ -212,6 +218,8 @@ def run_pinned(job, vals, tables):
     def body(ctx):
         S = PinnedSource(ctx, vals, tables)
         ctx.S = S
+        from . import lib as _lib
+        _lib._SOURCE[0] = S
         ctx.hash_mode = job.hash_mode
         with _quiet():
             job.fn(S, **job.params)
@@ -219,7 +227,7 @@ def run_pinned(job, vals, tables):
         out['ctx'] = ctx
 
     if job.use_shim:
-        shim.install()
+        shim.install(extra=job.extra_shims)
     try:
         try:
             core.explore(body, timeout_ms=job.timeout_ms, max_paths=1)
@@ -259,6 +267,9 @@ class ConcreteSource:
         n = self.counter.get(base, 0)
         self.counter[base] = n + 1
         return '%s!%d' % (base, n)
+
+    def fresh_name(self, base):
+        return self._fresh(base)
 
     def fresh_real(self, base):
         return self.real(self._fresh(base))
@@ -303,7 +314,7 @@ class ConcreteSource:
 # ---------------------------------------------------------------------------------------------------
 class Job:
     def __init__(self, name, fn, params=None, timeout_ms=20000, max_paths=200000, validate=1, budget_s=None,
-                 expect_raises=(), hash_mode='realize', family=None, max_decisions=100000, use_shim=True, allow_limit=False):
+                 expect_raises=(), hash_mode='realize', family=None, max_decisions=100000, use_shim=True, allow_limit=False, extra_shims=None):
         self.name = name
         self.fn = fn
         self.params = params or {}
@@ -316,6 +327,7 @@ class Job:
         self.family = family or name.split('[')[0]
         self.max_decisions = max_decisions
         self.use_shim = use_shim
+        self.extra_shims = extra_shims  # [(module name or None, global name, replacement)] installed together with the standard shim
         self.allow_limit = allow_limit  # paths cut by max_decisions are counted (non-terminating library loop), not an error
 
 
@@ -347,6 +359,8 @@ def run_concrete(job, vals, tables):
     was = bool(shim._installed)
     shim.uninstall()
     S = ConcreteSource(vals, tables)
+    from . import lib as _lib
+    _lib._SOURCE[0] = S
     res = {'goals': [], 'exception': None, 'assume_failed': False, 'missing': []}
     try:
         with _quiet():
@@ -359,7 +373,7 @@ def run_concrete(job, vals, tables):
         res['tb'] = traceback.format_exc()[-1500:]
     finally:
         if was:
-            shim.install()
+            shim.install(extra=job.extra_shims)
     res['goals'] = S.goals
     res['observations'] = S.observations
     res['missing'] = S.missing
@@ -392,6 +406,8 @@ def run_job(job, seed=0):
         ctx.hash_mode = job.hash_mode
         S = LiftedSource(ctx)
         ctx.S = S
+        from . import lib as _lib
+        _lib._SOURCE[0] = S
         with _quiet():
             return job.fn(S, **job.params)
 
@@ -471,7 +487,7 @@ def run_job(job, seed=0):
                         # rounding of the model at a branch boundary, or a genuine shim mismatch?  Re-run the lifted machinery
                         # on exactly the floats the real run used and compare again.
                         pin = run_pinned(job, vals, tables)
-                        shim.install()
+                        shim.install(extra=job.extra_shims)
                         mism2 = 'pinned run failed'
                         if pin is not None and 'obs' in pin:
                             mism2 = _compare_obs_lists(pin['obs'], res['observations'])
@@ -489,7 +505,7 @@ def run_job(job, seed=0):
             summ['samples'].append({'path': idx, 'decisions': pr.ndecisions, 'goals': [g.label for g in pr.goals][:8]})
 
     if job.use_shim:
-        shim.install()
+        shim.install(extra=job.extra_shims)
     import signal
 
     def _alarm(signum, frame):
